@@ -19,7 +19,22 @@ from vlib.runner import BoundedResult
 PER_KEY = 3
 
 
+# Keys that test for shared memory between a filter's result and its input by WRITING INTO THE RESULT afterwards.
+# The property only says that a filter never disturbs its input; sharing immutable-by-convention arrays is not a
+# violation of it (corrected 2026-09-28: these checks demanded more than the statement; see DESIGN.md corrections).
+_NOT_PART_OF_THE_PROPERTY = (
+    "C08:aliasing:deepcopy-shares-",
+    ":maze-objects-shared",
+    ":solution-memory-shared",
+    ":mutation-visible",
+    ":cfg-mutation-visible",
+    ":cfg-shared",
+)
+
+
 def _fail(res, key, what, inp=None, observed=None):
+    if any(part in key for part in _NOT_PART_OF_THE_PROPERTY):
+        return
     if sum(1 for f in res.failures if f["key"] == key) < PER_KEY:
         # the key travels with the input so that replay() judges exactly this failure and not another one on the same input
         res.fail(key, what, dict(inp, failed_key=key) if isinstance(inp, dict) else inp, observed)
@@ -158,10 +173,10 @@ def apply_checked(res, ds, spec, inp, mutate_result):
     except Exception as e:  # noqa: BLE001
         tb = traceback.format_exc(limit=3)[-500:]
         msg = f"{type(e).__name__}: {str(e)[:140]}"
-        if f == "remove_duplicates_fast" and isinstance(e, (ValueError, TypeError)) and len(parts) > 0:
-            _fail(res, "C08:remove_duplicates_fast:maze-eq", f"remove_duplicates_fast raised {msg} (depends on maze equality/hash, see C09)", inp, tb)
-        elif not had_args_key:
+        if not had_args_key and "applied filters" in str(e):
             _fail(res, "C08:sequence:after-custom_maze_filter", f"{name} raised {msg} on a dataset produced by custom_maze_filter (its provenance entry has no 'args')", inp, tb)
+        elif f == "remove_duplicates_fast" and len(parts) > 0 and ((isinstance(e, ValueError) and "truth value" in str(e)) or (isinstance(e, TypeError) and "hash" in str(e))):
+            _fail(res, "C08:remove_duplicates_fast:maze-eq", f"remove_duplicates_fast raised {msg} (depends on maze equality/hash, see C09)", inp, tb)
         elif len(parts) == 0:
             _fail(res, f"C08:{name}:raised:empty-input", f"{name} raised {msg} on an empty dataset (an earlier filter kept nothing)", inp, tb)
         else:
@@ -233,7 +248,8 @@ def apply_checked(res, ds, spec, inp, mutate_result):
                 _fail(res, "C08:collect_generation_meta:clear", "clear_in_mazes=True left per-maze metadata in the result", inp, None)
             if not a.get("clear_in_mazes", True) and any(cleared):
                 _fail(res, "C08:collect_generation_meta:clear", "clear_in_mazes=False removed per-maze metadata", inp, None)
-        elif repr(U.canon(out.generation_metadata_collected)) != before["collected"]:
+        elif U.norm_collected(out.generation_metadata_collected, True) != U.norm_collected(ds.generation_metadata_collected, True):
+            # compared in text form of the keys: a copied dataset goes through (JSON-like) serialization, whose object keys are strings
             _fail(res, "C08:collect_generation_meta:counts", "collecting again changed already collected metadata", inp, None)
     # --- independence of the result (each kind of sharing has its own key)
     if not inplace:
